@@ -184,7 +184,71 @@ Definition requeue_all (qs : list (Z * list Z)) (idx : Z) : list (Z * list Z) :=
                 let l' := match l with h :: t => if h =? idx then t else l | [] => l end in
                 (fst q, l' ++ [idx])) qs.
 
-(* one iteration of fulfillBetByParticipationQueue for queue head idx; None = error/panic *)
+(* ---- one iteration of fulfillBetByParticipationQueue, in four pieces ---------------------------------- *)
+
+(* (1) the three-way switch on the available liquidity: (participation, exposure, setFulfilled,
+       Some (stake, payout) if fulfill() ran, new carry) *)
+Definition iter_switch (A : wargs) (p0 : part) (pe0 : expo) (s : wstate) : part * expo * bool * option (Z * Z) * Z :=
+  let avail := avail_liq (wa_mult A) p0 pe0 in
+  let tprofit := dec_trunc_int (ws_profit s) in
+  if avail <=? 0 then (p0, pe0, true, None, ws_carry s)
+  else if avail <=? tprofit then
+    let '(stake, c) := bet_amount_int (wa_oddsval A) (dec_of_int avail) (ws_carry s) in
+    let '(p, e) := fulfil_records p0 pe0 (wa_sel A) stake avail in
+    (p, e, true, Some (stake, avail), c)
+  else
+    let '(p, e) := fulfil_records p0 pe0 (wa_sel A) (ws_betamt s) tprofit in
+    (p, e, (avail - tprofit <=? wa_thr A), Some (ws_betamt s, tprofit), ws_carry s).
+
+(* (2) fulfill(): the bet-side bookkeeping *)
+Definition iter_betside (A : wargs) (p0 : part) (stake_opt : option (Z * Z)) (s : wstate)
+  : Z * Z * Z * list bpart * book :=
+  match stake_opt with
+  | None => (ws_betamt s, ws_fulfilled s, ws_profit s, ws_parts s, ws_book s)
+  | Some (stake, pay) =>
+      (ws_betamt s - stake, ws_fulfilled s + stake, ws_profit s - dec_of_int pay,
+       ws_parts s ++ [{| f_owner := p_owner p0; f_idx := p_idx p0; f_stake := stake; f_pay := pay |}],
+       add_pair (ws_book s) (p_idx p0) (wa_betid A))
+  end.
+
+(* (3) setItemFulfilledAndRemove + checkFullfillmentForOtherOdds; None = error *)
+Definition iter_fulfilled (A : wargs) (idx : Z) (it : fitem) (setf : bool) (p1 : part) (pe1 : expo)
+           (uq : list Z) (bk0 : book) : option (part * expo * list Z * book) :=
+  if setf then
+    let pe2 := expo_upd pe1 (e_exp pe1) (e_bet pe1) true in
+    let p2 := part_set_enf p1 (u64_pred (p_enf p1)) in
+    let uq' := tl uq in
+    if eligible_pre p2 then
+      if p_enf p2 =? 0 then Some (p2, pe2, uq', bk0)
+      else match check_other (wa_uids A) (wa_sel A) (wa_allodds A) (fi_all it) p2 (wa_thr A) (p_enf p2) [] with
+           | None => None
+           | Some (enf, upds) =>
+               (* SetParticipationExposure + removeFromFulfillmentQueue for every secondary fulfilment *)
+               Some (part_set_enf p2 enf, pe2, uq',
+                     fold_left (fun b e => drop_from_queue (set_expo b e) (e_odds e) idx) upds bk0)
+           end
+    else Some (p2, pe2, uq', bk0)
+  else Some (p1, pe1, uq, bk0).
+
+(* (4) refreshQueueAndState, when all exposures are fulfilled and liquidity remains *)
+Definition iter_refresh (A : wargs) (idx : Z) (it : fitem) (p3 : part) (bk2 : book)
+           (fm : list (Z * fitem)) (uq3 : list Z) : book * list (Z * fitem) * list Z :=
+  let p4 := part_set_crl p3 (p_crl p3 - zmax0 (p_crml p3)) in      (* TrimCurrentRoundLiquidity *)
+  let '(bk3, pe4) := prep_expos (expos_of_part_ix bk2 idx) bk2 (eligible_next p4) (wa_sel A) None in
+  let fm1 := match pe4 with
+             | Some e => fmap_set fm idx {| fi_part := fi_part it; fi_pe := Some e; fi_all := fi_all it |}
+             | None => fm end in
+  (* ResetForNextRound *)
+  let p5 := part_upd p4 (p_liq p4) (p_crl p4) (wa_oddscnt A) (p_tba p4) 0
+                     (p_maxloss p4 + p_crml p4) 0 (p_crml_odds p4) (p_profit p4) in
+  let fm2 := match fmap_get fm1 idx with
+             | Some it' => fmap_set fm1 idx {| fi_part := p5; fi_pe := fi_pe it'; fi_all := fi_all it' |}
+             | None => fm1 end in
+  let bk4 := set_part bk3 p5 in
+  if eligible_next p5 then (set_queues bk4 (requeue_all (bk_queues bk4) idx), fm2, uq3 ++ [idx])
+  else (bk4, fm2, uq3).
+
+(* one iteration for queue head idx; None = error/panic *)
 Definition wager_iter (A : wargs) (idx : Z) (s : wstate) : option wstate :=
   match fmap_get (ws_fmap s) idx with
   | None => None
@@ -193,65 +257,14 @@ Definition wager_iter (A : wargs) (idx : Z) (s : wstate) : option wstate :=
   | None => None
   | Some pe0 =>
       let p0 := fi_part it in
-      let avail := avail_liq (wa_mult A) p0 pe0 in
-      let tprofit := dec_trunc_int (ws_profit s) in
-      (* the three-way switch *)
-      let '(p1, pe1, setf, stake_opt, carry1) :=
-        if avail <=? 0 then (p0, pe0, true, None, ws_carry s)
-        else if avail <=? tprofit then
-          let '(stake, c) := bet_amount_int (wa_oddsval A) (dec_of_int avail) (ws_carry s) in
-          let '(p, e) := fulfil_records p0 pe0 (wa_sel A) stake avail in
-          (p, e, true, Some (stake, avail), c)
-        else
-          let '(p, e) := fulfil_records p0 pe0 (wa_sel A) (ws_betamt s) tprofit in
-          (p, e, (avail - tprofit <=? wa_thr A), Some (ws_betamt s, tprofit), ws_carry s) in
-      (* fulfill(): bet-side bookkeeping *)
-      let '(betamt, fulfilled, profit, parts, bk0) :=
-        match stake_opt with
-        | None => (ws_betamt s, ws_fulfilled s, ws_profit s, ws_parts s, ws_book s)
-        | Some (stake, pay) =>
-            (ws_betamt s - stake, ws_fulfilled s + stake, ws_profit s - dec_of_int pay,
-             ws_parts s ++ [{| f_owner := p_owner p0; f_idx := p_idx p0; f_stake := stake; f_pay := pay |}],
-             add_pair (ws_book s) (p_idx p0) (wa_betid A))
-        end in
-      (* setItemFulfilledAndRemove + checkFullfillmentForOtherOdds *)
-      let r :=
-        if setf then
-          let pe2 := expo_upd pe1 (e_exp pe1) (e_bet pe1) true in
-          let p2 := part_set_enf p1 (u64_pred (p_enf p1)) in
-          let uq := tl (ws_uq s) in
-          if eligible_pre p2 then
-            if p_enf p2 =? 0 then Some (p2, pe2, uq, bk0)
-            else match check_other (wa_uids A) (wa_sel A) (wa_allodds A) (fi_all it) p2 (wa_thr A) (p_enf p2) [] with
-                 | None => None
-                 | Some (enf, upds) =>
-                     (* SetParticipationExposure + removeFromFulfillmentQueue for every secondary fulfilment *)
-                     Some (part_set_enf p2 enf, pe2, uq,
-                           fold_left (fun b e => drop_from_queue (set_expo b e) (e_odds e) idx) upds bk0)
-                 end
-          else Some (p2, pe2, uq, bk0)
-        else Some (p1, pe1, ws_uq s, bk0) in
-      match r with
+      let '(p1, pe1, setf, stake_opt, carry1) := iter_switch A p0 pe0 s in
+      let '(betamt, fulfilled, profit, parts, bk0) := iter_betside A p0 stake_opt s in
+      match iter_fulfilled A idx it setf p1 pe1 (ws_uq s) bk0 with
       | None => None
       | Some (p3, pe3, uq3, bk1) =>
           let bk2 := set_part (set_expo bk1 pe3) p3 in
-          (* refreshQueueAndState *)
           if (p_enf p3 =? 0) && eligible_pre p3 then
-            let p4 := part_set_crl p3 (p_crl p3 - zmax0 (p_crml p3)) in      (* TrimCurrentRoundLiquidity *)
-            let '(bk3, pe4) := prep_expos (expos_of_part_ix bk2 idx) bk2 (eligible_next p4) (wa_sel A) None in
-            let fm1 := match pe4 with
-                       | Some e => fmap_set (ws_fmap s) idx {| fi_part := fi_part it; fi_pe := Some e; fi_all := fi_all it |}
-                       | None => ws_fmap s end in
-            (* ResetForNextRound *)
-            let p5 := part_upd p4 (p_liq p4) (p_crl p4) (wa_oddscnt A) (p_tba p4) 0
-                               (p_maxloss p4 + p_crml p4) 0 (p_crml_odds p4) (p_profit p4) in
-            let fm2 := match fmap_get fm1 idx with
-                       | Some it' => fmap_set fm1 idx {| fi_part := p5; fi_pe := fi_pe it'; fi_all := fi_all it' |}
-                       | None => fm1 end in
-            let bk4 := set_part bk3 p5 in
-            let '(bk5, uq5) :=
-              if eligible_next p5 then (set_queues bk4 (requeue_all (bk_queues bk4) idx), uq3 ++ [idx])
-              else (bk4, uq3) in
+            let '(bk5, fm2, uq5) := iter_refresh A idx it p3 bk2 (ws_fmap s) uq3 in
             Some {| ws_book := bk5; ws_fmap := fm2; ws_uq := uq5; ws_betamt := betamt; ws_profit := profit;
                     ws_fulfilled := fulfilled; ws_parts := parts; ws_carry := carry1 |}
           else
